@@ -14,15 +14,15 @@ BASE_NOTE = ('Trusted: Lean 4.33.0 kernel, axioms within {propext, Classical.cho
 CLAIMED = {
     'C03': dict(
         technique='Lean 4 theorems (induction over inputs and value lists) about an executable model + differential correspondence + oracle search',
-        text='Per key and for every number of inputs, shape, classification mix and value list, the Lean model of from_sequence/_insert/_insert_slice/_insert_sample/_insert_non_slice/_get_changed_class is proved to concatenate lookups (slice, time, vector axes), to keep exactly the agreeing keys on non-slice axes and to yield valid results; the model is tied to dcmmeta.py by running both on generated merges (all axes, 3-5 D, canonical and non-canonical inputs, missing keys, differing slice normals) and the property itself is searched for a failing input on the implementation.',
+        text='Per key and for every number of inputs, shape, classification mix and value list, the Lean model of from_sequence/_insert/_insert_slice/_insert_sample/_insert_non_slice/_get_changed_class is proved to concatenate lookups (slice, time, vector axes), to keep exactly the agreeing keys on non-slice axes and to yield valid results, and the merges are proved unable to raise for valid inputs in those regions (merge_*_total; the excluded vector axis of length 1 is finding F22); the model is tied to dcmmeta.py by running both on generated merges (all axes, 3-5 D, canonical and non-canonical inputs, missing keys, differing slice normals) and the property itself is searched for a failing input on the implementation.',
         design='DESIGN.md §7 C03', note=BASE_NOTE + ' Wrapper-level data/affine clauses are checked by the oracle on exact (integer) geometry; float geometry near tolerances is runtime.'),
     'C04': dict(
         technique='Lean 4 theorems about the executable model of get_subset/_copy_slice/_copy_sample + differential correspondence + oracle search',
-        text='For every valid extension, axis and index the model of get_subset is proved to be restriction of lookups (slice axis, time axis of 4-D, vector axis of 5-D, raw list surgery for every class), with valid results; correspondence over all dims/indices of generated 3-5 D extensions.',
+        text='For every valid extension, axis and index the model of get_subset is proved to be restriction of lookups (slice axis, time axis of 4-D, vector axis of 5-D, raw list surgery for every class), with valid results; get_subset and _simplify are proved unable to raise on valid keys in those regions (subset_*_total, simplify_total); correspondence over all dims/indices of generated 3-5 D extensions.',
         design='DESIGN.md §7 C04', note=BASE_NOTE),
     'C05': dict(
         technique='Lean 4 theorems (uniqueness of canonical form + C03/C04 theorems) + differential correspondence + oracle search',
-        text='split-then-merge is proved to be the identity on canonical keys for the slice axis, the time axis of 4-D and the vector axis of 5-D extensions, for all sizes; chains are searched on the implementation. The time axis of 5-D extensions is the recorded finding F3.',
+        text='split-then-merge is proved to be the identity on canonical keys for the slice axis, the time axis of 4-D and the vector axis of 5-D extensions, for all sizes, and without premises: every split and the merge are proved to succeed (split_merge_*_total); chains, repeated merges of the same pieces and re-splits are searched on the implementation. The time axis of 5-D extensions is the recorded finding F3.',
         design='DESIGN.md §7 C05', note=BASE_NOTE),
     'C06': dict(
         technique='Lean 4 theorems (simplify reaches a class no earlier class can replace; merge invariants) + differential correspondence + oracle search',
